@@ -4,7 +4,7 @@ from __future__ import annotations
 from fractions import Fraction as F
 
 from .common import Run, bool_s, frac_s, guarded, list_s, opt_s, run_driver
-from .c20 import TOL2, TOL6, grid_oracle, isx
+from .c20 import TOL2, TOL6, grid_oracle, isx, near, ref_snap_grid
 
 META = {
     "claimed": True,
@@ -114,6 +114,41 @@ def axis_exact(x0: F, x1: F, res: F, off) -> bool:
     return all(isx(v) for v in vals)
 
 
+
+def ref_from_bbox(bb, tight, shape, res, snap, tol: F):
+    """exact-arithmetic re-computation of GeoBox.from_bbox (independent of the Lean model):
+    (ny, nx, [a, b, c, d, e, f]) or 'ERR' where the code raises"""
+    l, b, r, t = bb
+    if isinstance(shape, int):
+        if t - b == 0 or shape == 0:
+            return "ERR"
+        rr = (r - l) / shape if (r - l) / (t - b) > 1 else (t - b) / shape
+        res, shape = rr, None
+    if res is not None:
+        rx, ry = res if isinstance(res, tuple) else (res, -res)
+        gx = ref_snap_grid(l, r, rx, None if snap is None else snap[0], tol)
+        if gx == "ERR":
+            return "ERR"
+        gy = ref_snap_grid(b, t, ry, None if snap is None else snap[1], tol)
+        if gy == "ERR":
+            return "ERR"
+        return gy[1], gx[1], [rx, F(0), gx[0], F(0), ry, gy[0]]
+    if shape is None:
+        return "ERR"
+    ny, nx = shape
+    if nx == 0 or ny == 0:
+        return "ERR"
+    rx, ry = (r - l) / nx, -(t - b) / ny
+    if snap is None:
+        return ny, nx, [rx, F(0), l, F(0), ry, t]
+    gx = ref_snap_grid(l, r, rx, snap[0], tol)
+    if gx == "ERR":
+        return "ERR"
+    gy = ref_snap_grid(b, t, ry, snap[1], tol)
+    if gy == "ERR":
+        return "ERR"
+    return ny, nx, [rx, F(0), gx[0], F(0), ry, gy[0]]
+
 # ------------------------------------------------------------------ the property predicates
 def bbox_oracle(R: Run, gb, bb, rxy, snap, tol: F, slack_rel: F, case, prefix: str):
     """resolution-driven construction: the five predicates per axis + exact pixel size"""
@@ -195,6 +230,12 @@ def run(R: Run):
         snap = anch.snap(tight)
         if exact:
             R.corr(line, f, sig=f"bbox|{tag}|{'float' if snap is None else 'snap'}|{'tight' if tight else ''}")
+            want = ref_from_bbox(bb, tight, shape, res, snap, tol)
+            if out or want != "ERR":
+                got = "ERR" if not out else (int(out[0].shape[0]), int(out[0].shape[1]), [F(float(v)) for v in tuple(out[0].affine)[:6]])
+                R.oracle(got == want, "from-bbox-differs-from-exact-recomputation", {"fn": "GeoBox.from_bbox", "line": line},
+                         f"from_bbox = {gb_s(out[0]) if out else 'raised'} but exact arithmetic gives "
+                         f"{want if want == 'ERR' else (want[0], want[1], [float(v) for v in want[2]])}", sig="bbox-2sided")
         else:
             o = guarded(f)
             if not out:
@@ -238,6 +279,30 @@ def run(R: Run):
                     sn = anch.snap(False)
                     if axis_exact(bb[0], bb[2], rx, None if sn is None else sn[0]) and axis_exact(bb[1], bb[3], ry, None if sn is None else sn[1]):
                         call(bb, rng.random() < 0.15, None, (rx, ry), anch, tol, "small", True, F(0))
+    # quotients a hair (1e-6 ... 1 ulp) away from integers / half-integers / the tolerance threshold, power-of-two pixels
+    for _ in range(R.pick(2500, 25000)):
+        rx = F(rng.choice([-1, 1])) * F(2) ** rng.randint(-6, 5)
+        ry = F(rng.choice([-1, 1])) * F(2) ** rng.randint(-6, 5)
+        anch = rng.choice([Anch("s", "default"), Anch("s", "center"), Anch("s", "floating"), Anch("n", F(1, 4)), Anch("x", (F(0), F(1, 2)))])
+        tight = rng.random() < 0.1
+        sn = anch.snap(tight)
+        tol = rng.choice([TOL2, F(0), TOL6, F(1e-10)])
+
+        def hair(off):
+            k0 = rng.randint(-50, 50) + rng.choice([0, 0, 0.5])
+            k1 = k0 + rng.randint(0, 40)
+            c0 = near(float(k0)) + near(float(k0) + float(tol)) + near(float(k0) - float(tol))
+            c1 = near(float(k1)) + near(float(k1) + float(tol)) + near(float(k1) - float(tol))
+            q0, q1 = F(rng.choice(c0)) + off, F(rng.choice(c1)) + off
+            return (q0, q1) if q0 <= q1 else (q1, q0)
+
+        ql, qr = hair(F(0) if sn is None else sn[0])
+        qb, qt = hair(F(0) if sn is None else sn[1])
+        bb = (ql * abs(rx), qb * abs(ry), qr * abs(rx), qt * abs(ry))
+        if axis_exact(bb[0], bb[2], rx, None if sn is None else sn[0]) and axis_exact(bb[1], bb[3], ry, None if sn is None else sn[1]):
+            call(bb, tight, None, (rx, ry), anch, tol, "near-int", True, F(0))
+        else:
+            R.count("bbox:skipped-inexact")
     # random large (quotient construction), resolution branch
     for _ in range(R.pick(3000, 30000)):
         def rres():
